@@ -92,7 +92,8 @@ def load_kani_units():
 #   C01 (an independent decoder recovers the input) needs a well-formed stream (C02);
 #   C04 (frame-size fields == bytes emitted) and C09 (selection by reported size) need count_bits()
 #   to be the number of bits written (C08).
-IMPLIED = {"C01": ["C02"], "C04": ["C08"], "C09": ["C08"]}
+#   every serialised bit goes through a sink operation, so C01, C02 and C08 need C11.
+IMPLIED = {"C01": ["C02", "C11"], "C02": ["C11"], "C08": ["C11"], "C04": ["C08"], "C09": ["C08"]}
 
 
 def select(units, prop, tier):
